@@ -13,7 +13,8 @@ FAULTS = [('nope', 'RUndefinedVar'), ('(nope2 = 1)', 'RUndefinedAssign'), ('(%s 
           ('(1.5 | 1)', 'RLeftInteger'), ('(1 / 0)', 'RDivZero'), ('(5 %% 0)'.replace('%%', '%'), 'RDivZero'), ('arr3[9]', 'RIndexBounds'), ('(5)[0]', 'RNotArrayAccess'),
           ('ob.zz', 'RNoProperty'), ('(5).k', 'RNotObjectAccess'), ('(5)(1)', 'RNotCallable'), ('fn2()', 'RArity'), ('%s()' % LEN, 'RArity'),
           ('%s(1)' % LEN, 'RCallFailed.NfNotArray'), ('%s(arr3, 9)' % REMOVE, 'RCallFailed.NfIndexBounds'), ('%s(ob, "zz")' % DELETE, 'RCallFailed.NfKeyMissing'),
-          ('%s()' % MIN, 'RCallFailed.NfArgCount'), ('(1 << -1)', 'RNegShift'), ('-"x"', 'RUnaryNumber'), ('arr3["x"]', 'RIndexInteger')]
+          ('%s()' % MIN, 'RCallFailed.NfArgCount'), ('(1 << -1)', 'RNegShift'), ('-"x"', 'RUnaryNumber'), ('arr3["x"]', 'RIndexInteger'),
+          ('[ob][7 % 7].zz', 'RNoProperty'), ('-"10%d"', 'RUnaryNumber'), ('~"5%s"', 'RUnaryInteger'), ('%s(ob, "100%%v")' % DELETE, 'RCallFailed.NfKeyMissing')]
 PROBE = '%s("probe>")' % INPUT
 # (template with @ for the faulting expression; everything evaluated after @ in the same statement must not run)
 POSITIONS = ['%s @;' % PRINT, '%s v1 = @;' % VAR, '%s v2 = 1, v3 = @, v4 = %s;' % (VAR, PROBE), 'xx = @;', 'fn2(@);', 'fn3(1, @);', 'fn3(@, %s);' % PROBE,
@@ -72,7 +73,8 @@ def run(env, tier, seed, broken=None):
              ('%s 1;' % RETURN, 'RStrayReturn', 'top'), ('%s q1 = 1, q1 = 2;' % VAR, 'RRedeclare', 'any'),
              ('%s fp(pa, pb) { %s "in-fp"; }\nfp(1, 2);' % (FUN, PRINT), None, 'none')]
     stmts = [x for x in stmts if x[1]]
-    param_faults = [('%s fq(pa, pb) {\n  %s pa = 5;\n  %s "after-in";\n}\nfq(1, 2);' % (FUN, VAR, PRINT), 'RRedeclare', 1), ('%s fr() {\n  %s fr = 5;\n  %s "after-in";\n}\nfr();' % (FUN, VAR, PRINT), 'RRedeclare', 1)]
+    param_faults = [('%s nv;\n%s nv = 5;' % (VAR, VAR), 'RRedeclare', 1), ('%s nw = %s;\n%s nw;' % (VAR, NIL, VAR), 'RRedeclare', 1),
+                    ('%s fq(pa, pb) {\n  %s pa = 5;\n  %s "after-in";\n}\nfq(1, 2);' % (FUN, VAR, PRINT), 'RRedeclare', 1), ('%s fr() {\n  %s fr = 5;\n  %s "after-in";\n}\nfr();' % (FUN, VAR, PRINT), 'RRedeclare', 1)]
     for st, kind, off in param_faults:
         cid = 'm%d' % n; n += 1
         cases.append({'id': cid, 'src': PRE + st + '\n' + POST, 'stdin': 'in1\nin2\n', 'timeout_ms': 2500})
